@@ -103,7 +103,7 @@ func (s *sink) index() []byte {
 type family struct {
 	name   string
 	n      int
-	runner func(s *sink) runner
+	runner func(s *sink, g, n int) runner
 }
 
 // runner: the per-goroutine view of one family (run case i; write out what is still held back)
@@ -116,46 +116,49 @@ func load(spec famSpec) *family {
 	switch spec.Name {
 	case "f17":
 		cs := f17.Load(spec.Cases)
-		return &family{"f17", len(cs), func(s *sink) runner {
+		return &family{"f17", len(cs), func(s *sink, g, n int) runner {
 			r := f17.NewRunner(s)
 			return runner{func(i int) { r.Run(&cs[i]) }, r.Finish}
 		}}
 	case "f12":
 		cs := f12.Load(spec.Cases)
-		return &family{"f12", len(cs), func(s *sink) runner {
+		return &family{"f12", len(cs), func(s *sink, g, n int) runner {
 			r := f12.NewRunner(s)
 			return runner{func(i int) { r.Run(&cs[i]) }, r.Finish}
 		}}
 	case "f13":
 		cs := f13.Load(spec.Cases)
-		return &family{"f13", len(cs), func(s *sink) runner {
+		return &family{"f13", len(cs), func(s *sink, g, n int) runner {
 			r := f13.NewRunner(s)
 			return runner{func(i int) { r.Run(&cs[i]) }, r.Finish}
 		}}
 	case "f15":
 		cs := f15.Load(spec.Cases)
-		return &family{"f15", len(cs), func(s *sink) runner {
+		return &family{"f15", len(cs), func(s *sink, g, n int) runner {
 			r := f15.NewRunner(s)
 			return runner{func(i int) { r.Run(&cs[i]) }, r.Finish}
 		}}
 	case "f16":
 		cs := f16.Load(spec.Cases)
-		return &family{"f16", len(cs), func(s *sink) runner {
+		return &family{"f16", len(cs), func(s *sink, g, n int) runner {
 			r := f16.NewRunner(s)
 			return runner{func(i int) { r.Run(&cs[i]) }, r.Finish}
 		}}
 	case "f18":
 		cs := f18.Load(spec.Cases)
-		return &family{"f18", len(cs), func(s *sink) runner {
+		return &family{"f18", len(cs), func(s *sink, g, n int) runner {
 			r := f18.NewRunner(s)
 			return runner{func(i int) { r.Run(&cs[i]) }, r.Finish}
 		}}
 	case "f06", "f07": // ciphering / integrity: same runner, separate traces (Trace_C06 / Trace_C07)
 		cs := fsec.Load(spec.Cases)
-		return &family{spec.Name, len(cs), func(s *sink) runner {
+		return &family{spec.Name, len(cs), func(s *sink, g, n int) runner {
 			r := fsec.NewRunner(s)
 			return runner{func(i int) { r.Run(&cs[i]) }, r.Finish}
 		}}
+	}
+	if spec.Name == "fmsg" { // shared decoded messages, see shared.go
+		return loadShared(spec)
 	}
 	if f := loadExtra(spec); f != nil {
 		return f
@@ -254,7 +257,7 @@ func runPar(m manifest, prefix string, n, rounds int, mode string) {
 			run := make([]runner, len(fams))
 			for i, f := range fams {
 				sinks[i] = &sink{}
-				run[i] = f.runner(sinks[i])
+				run[i] = f.runner(sinks[i], g, n)
 			}
 			me := &beats[g]
 			do := func(b block) {
@@ -326,7 +329,7 @@ func runSeq(name, cases, order, out string) {
 		ev.Fatal("%v", err)
 	}
 	s := &sink{}
-	r := f.runner(s)
+	r := f.runner(s, 0, 1)
 	for _, ln := range bytes.Split(raw, []byte("\n")) {
 		if len(bytes.TrimSpace(ln)) == 0 {
 			continue
